@@ -166,7 +166,24 @@ func C18(c *Ctx) {
 		n := 0
 		for _, b := range h.Blocks {
 			if ret, isRet := b.Instrs[len(b.Instrs)-1].(*ssa.Return); isRet {
-				for _, d := range phiEdgesWithBlocks(ret.Results[0], b) {
+				// the answers that are merged into the result, each with what holds on its way to the return (the
+				// facts of the incoming edge: `0 < n && p[n-1] == '!'` answers false on the edge where 0 < n failed)
+				type answerAt struct {
+					v     ssa.Value
+					facts []flow.Fact
+				}
+				var answers func(v ssa.Value, facts []flow.Fact, depth int) []answerAt
+				answers = func(v ssa.Value, facts []flow.Fact, depth int) []answerAt {
+					if p, isPhi := v.(*ssa.Phi); isPhi && depth < 6 {
+						var out []answerAt
+						for i, e := range p.Edges {
+							out = append(out, answers(e, flow.EdgeFacts(p.Block().Preds[i], p.Block()), depth+1)...)
+						}
+						return out
+					}
+					return []answerAt{{v, facts}}
+				}
+				for _, d := range answers(ret.Results[0], flow.FactsAt(b), 0) {
 					n++
 					if suffixCall(d.v, h.Params[idx]) {
 						continue
@@ -179,7 +196,7 @@ func C18(c *Ctx) {
 					}
 					want := constant.BoolVal(cst.Value)
 					decided := false
-					for _, f := range flow.FactsAt(d.b) {
+					for _, f := range d.facts {
 						if !want && emptyName(f, h.Params[idx]) {
 							decided = true
 						}
@@ -879,7 +896,17 @@ func C18(c *Ctx) {
 		if st == restoreCopy {
 			// the restored copy of non-nil bindings becomes the result's bindings: non-nil stays non-nil
 			nonNil := false
-			for _, f := range flow.FactsAt(st.Block()) {
+			facts := append([]flow.Fact{}, flow.FactsAt(st.Block())...)
+			// the store may sit in a helper that is called at one place only: what holds at that call holds here
+			for g, k := st.Parent(), 0; g != exec && k < 5; k++ {
+				sites := callSitesOf(g, closure)
+				if len(sites) != 1 {
+					break
+				}
+				facts = append(facts, flow.FactsAt(sites[0].Block())...)
+				g = sites[0].Parent()
+			}
+			for _, f := range facts {
 				if bo, ok := f.Cond.(*ssa.BinOp); ok && ssau.IsNilConst(bo.Y) && ((bo.Op == token.NEQ && f.True) || (bo.Op == token.EQL && !f.True)) {
 					if _, is := isFieldLoad(bo.X, "core", "Execution", "Bs"); is {
 						nonNil = true
